@@ -776,7 +776,7 @@ def mfront_stage(ck, rng, report, stats):
             libdirs.add(root)
     env = dict(os.environ)
     env["LD_LIBRARY_PATH"] = ":".join(sorted(libdirs)) + ":" + env.get("LD_LIBRARY_PATH", "")
-    interfaces = ["c", "c++", "excel", "cpptest", "octave"]
+    interfaces = ["c", "c++", "excel", "octave"]  # not cpptest: it legitimately refuses laws without @Bounds
     suffix = "-c47-%d" % os.getpid()
     semfile = "/dev/shm/sem.mfront-%d%s" % (os.geteuid(), suffix)
 
